@@ -528,7 +528,11 @@ def _cli(prog, chk, R):
                 same = bool(lp) and bool(dl) and SX.show(lp[-1]['range']) == SX.show(dl[-1]['range'])
                 adds_second = SX.show(SX.write_target(accs[0])[1]).endswith('.second')
                 full = bool(lp) and not any(x['k'] in ('break', 'continue', 'return') for x in SX.walk(lp[-1]['body']))
-                ok = same and adds_second and full and len(accs) == 1
+                # … and the sum is used as it is: nothing else writes the divisor (`total = max(total, shots)` makes the column sum to less than 1
+                # for a variable whose scope is not entered in every shot)
+                other_w = [x for x in SX.walk(f.body, into_lambdas=False) if (lambda w: w and SX.is_node(SX.strip(w[0])) and SX.strip(w[0]).get('id') == d.get('id') and x is not accs[0])(
+                    SX.write_target(x))]
+                ok = same and adds_second and full and len(accs) == 1 and not other_w
                 why = 'divisor %s = Σ counts over %s: %s' % (d['name'], SX.show(lp[-1]['range']) if lp else '?', ok)
         chk.ob('R17.5', f, n.get('ln', f.ln), ok, 'probability = count / (sum of that variable\'s counts), so the column sums to 1 whatever the number of scope exits per shot; %s' % why,
                key='denominator')
